@@ -149,7 +149,7 @@ N("C19", "exit trim via trim-to-flag when hunting", (H, "        # release consu
 # ------------------------------------------------------------------------------------------------ C20
 OB = "obis"
 S("C20", "pinned defect: doubled accumulator in the B branch", "R4", (OB, 'obis_code += f"{self._groups[1]}:"', 'obis_code += obis_code + f"{self._groups[1]}:"'))
-S("C20", "__hash__ over a different tuple", "R3", (OB, "return hash(self._groups)", "return hash(self._groups[2:5])"))
+N("C20", "__hash__ over a sub-tuple of the compared groups (equal objects still hash equally)", (OB, "return hash(self._groups)", "return hash(self._groups[2:5])"))
 S("C20", "to_group_cdr_str omits E", "R3", (OB, 'return f"{self._groups[2]}.{self._groups[3]}.{self._groups[4]}"', 'return f"{self._groups[2]}.{self._groups[3]}"'))
 S("C20", "AR/BR swapped in the group() call", "R1", (OB, 'obis = match.group("AR", "BR", "CR", "DR", "ER", "FR")', 'obis = match.group("BR", "AR", "CR", "DR", "ER", "FR")'))
 S("C20", "F converted unconditionally", "R1", (OB, "                int(obis[4]) if obis[4] else None,\n                int(obis[5]) if obis[5] else None,\n            )\n\n        if match.group(\"STANDARD\")",
